@@ -308,6 +308,55 @@ fn id_event(out: &mut Out, src: &str, t: &Transaction, c: &str, mutated: Option<
                   "mutated": mutated.unwrap_or_else(|| "".into())}));
 }
 
+/// an in-place change of a signed (non-malleable) field through the public `_mut` accessors; metadata is left as it is
+fn bump_in_place(t: &mut Transaction) -> bool {
+    fn bump_input(v: &mut Vec<Input>) -> bool {
+        for i in v.iter_mut() {
+            match i {
+                Input::CoinSigned(c) => { c.amount ^= 1; return true }
+                Input::CoinPredicate(c) => { c.amount ^= 1; return true }
+                Input::MessageCoinSigned(m) => { m.amount ^= 1; return true }
+                Input::MessageCoinPredicate(m) => { m.amount ^= 1; return true }
+                Input::MessageDataSigned(m) => { m.amount ^= 1; return true }
+                Input::MessageDataPredicate(m) => { m.amount ^= 1; return true }
+                Input::Contract(_) => {}
+            }
+        }
+        false
+    }
+    match t {
+        Transaction::Script(x) => { *x.script_gas_limit_mut() ^= 1; true }
+        Transaction::Create(x) => { x.salt_mut()[0] ^= 0x80; true }
+        Transaction::Upgrade(x) => bump_input(x.inputs_mut()),
+        Transaction::Upload(x) => bump_input(x.inputs_mut()),
+        Transaction::Blob(x) => bump_input(x.inputs_mut()),
+        Transaction::Mint(x) => { *x.mint_amount_mut() ^= 1; true }
+    }
+}
+
+/// C03 on an object that already CARRIES metadata (as every transaction returned by a builder or checked before does):
+/// precompute again under another chain id, and again after an in-place change of a signed field
+fn id_carried(out: &mut Out, src: &str, t: &Transaction, c: &str, c2: &str) {
+    let plain = strip_metadata(t);
+    let mut acc = plain.clone();
+    if !matches!(precompute(&mut acc, &chain(c)), Ok(true)) { return; }
+    let ch2 = chain(c2);
+    let mut emit = |out: &mut Out, acc: &mut Transaction, plain: &Transaction, tag: &str, mutated: &str| {
+        let fresh = match id_of(plain, &ch2) { Ok(x) => x, Err(_) => return };
+        let (cached, after) = match precompute(acc, &ch2) {
+            Ok(true) => (cached_id_of(acc).unwrap_or_else(|| "none".into()), id_of(acc, &ch2).unwrap_or_else(|m| format!("panic:{m}"))),
+            Ok(false) => ("refused".to_string(), "refused".to_string()),
+            Err(msg) => { out.ev(json!({"ev": "HostPanic", "where": "precompute", "type": "Transaction", "msg": msg})); return; }
+        };
+        out.ev(json!({"ev": "Id", "src": format!("{src}/{tag}"), "v": proj::transaction(plain), "chain": c2, "id": fresh, "cached": cached, "after": after, "mutated": mutated}));
+    };
+    emit(out, &mut acc, &plain, "re-chain", "");
+    if bump_in_place(&mut acc) {
+        let plain2 = strip_metadata(&acc);
+        if !degenerate(&plain2) { emit(out, &mut acc, &plain2, "re-mutated", "in-place"); }
+    }
+}
+
 fn part_id(o: &Opts, out: &mut Out) {
     let n = if o.thorough() { 1500 } else { 90 };
     let mut rng = o.rng(32);
@@ -317,6 +366,7 @@ fn part_id(o: &Opts, out: &mut Out) {
         let c = chains[k % chains.len()];
         id_event(out, &src, &t, c, None);
         if k % 7 == 0 { id_event(out, &src, &t, chains[(k + 1) % chains.len()], None); }
+        if k % 3 == 0 { id_carried(out, &src, &t, c, chains[(k + 1 + k / 3) % chains.len()]); }
         // single-field mutations of the same transaction
         for _ in 0..4 {
             let mut v = proj::transaction(&t);
